@@ -50,6 +50,10 @@ ASSUMPTIONS = ['matrix values are finite doubles (repr of inf/nan is not JSON); 
                'datetime.fromisoformat(d.isoformat()) == d (stdlib)',
                'metadata is compared through its JSON image (tuples -> lists, numpy scalars -> numbers, keys -> text)']
 
+from . import regen_json as _regen_json
+# py2v_json: regenerate coq/Gen/JsonGen.v (Table.to_json, both variants) from the source first
+regenerate = _regen_json.hook(TRUSTED, [], 'coq/Model/JsonText.v', 'coq/Proofs/GenBridgeJsonProofs.v')
+
 PIECES = ['"', '\\', '\\\\', '\\"', '/', '\b', '\f', '\n', '\r', '\t', '\x00', '\x01', '\x0b', '\x1f', '\x7f',
           '\x80', 'é', 'ñ', ' ', '퟿', '', '￿', '\U00010000', '\U0001d11e', '\U0010ffff',
           '\U0001f600', 'a', 'Z', ' ', '\\u0041', '\\n', '{', '}', '[', ']', ',', ':', "'", '%s', '%d', 'null', '",']
